@@ -13,7 +13,7 @@ Dims == <<
   [n |-> "volumes_from", top |-> FALSE, k |-> "volumes_from", alts |-> {Absent, Sq1(S("db")), Sq2(S("cache:ro"), S("container:ext"))}],
   [n |-> "ipc", top |-> FALSE, k |-> "ipc", alts |-> {Absent, S("service:cache"), S("host")}],
   [n |-> "pid", top |-> FALSE, k |-> "pid", alts |-> {Absent, S("service:db")}],
-  [n |-> "depends_on", top |-> FALSE, k |-> "depends_on", alts |-> {Absent, Sq1(S("db")), M1("db", M1("condition", S("service_healthy"))), M1("db", M3("condition", S("service_started"), "restart", B(FALSE), "required", B(FALSE)))}],
+  [n |-> "depends_on", top |-> FALSE, k |-> "depends_on", alts |-> {Absent, Sq1(S("db")), Sq2(S("db"), S("cache")), M1("db", M1("condition", S("service_healthy"))), M1("db", M3("condition", S("service_started"), "restart", B(FALSE), "required", B(FALSE)))}],
   [n |-> "build", top |-> FALSE, k |-> "build", alts |-> {Absent, S("./ctx"), M1("target", S("prod")), M2("context", S("./c"), "dockerfile", S("Other.df")), M1("dockerfile_inline", S("FROM scratch"))}],
   [n |-> "ports", top |-> FALSE, k |-> "ports", alts |-> {Absent, Sq1(M1("target", I(80))), Sq1(M3("target", I(80), "protocol", S("udp"), "mode", S("host"))), Sq1(M2("target", I(80), "protocol", S("tcp")))}],
   [n |-> "secrets", top |-> FALSE, k |-> "secrets", alts |-> {Absent, Sq1(S("s1")), Sq1(M1("source", S("s1"))), Sq1(M2("source", S("s1"), "target", S("/custom/t")))}],
